@@ -157,6 +157,36 @@ for _, b := range ring {
 fill()
 YIELD(pos)
 RETNIL`, "range:int-const-typed-nonident-key", "range-in-closure"),
+		func() *e1.Program {
+			// range over a NIL channel blocks forever (it is not an empty loop). One-sided observation: the loop runs on a
+			// goroutine of its own; on a faithful implementation the flag can never be set, however long one waits
+			p := G("range-over-nil-channel-blocks", `
+var ch chan int
+var finished atomic.Bool
+go func() {
+	for v := range ch {
+		tr.U(v)
+	}
+	finished.Store(true)
+}()
+var ro <-chan string
+go func() {
+	for range ro {
+	}
+	finished.Store(true)
+}()
+for i := 0; i < 50 && !finished.Load(); i++ {
+	time.Sleep(time.Millisecond)
+}
+if finished.Load() {
+	YIELD(1)
+} else {
+	YIELD(0)
+}
+RETNIL`, "range:chan-nil")
+			p.Imports = []string{"sync/atomic", "time"}
+			return p
+		}(),
 		G("range-assign-form-value-operand-depends-on-key", `
 xs := []int{10, 20, 30}
 a := make([]int, 4)
